@@ -96,6 +96,13 @@ def check_case(ctx, e, rng, mech_mod, mst, ada, mwem, aim):
             M.prng = cap
             return M.exponential_mechanism(q.copy(), eps, sens)
         rec("Mechanism.exponential_mechanism(array)", f1)
+        def f1b(cap):
+            arr = q.copy()
+            M.prng = Capture()
+            M.exponential_mechanism(arr, 0.1 * eps, sens)
+            M.prng = cap
+            return M.exponential_mechanism(arr, eps, sens)
+        rec("Mechanism.exponential_mechanism(array), same array as an earlier call", f1b)
     keys = ["c%d" % i for i in range(n)]
     qd = {keys[i]: float(q[i]) for i in range(n)}
     order = list(range(n))
@@ -116,6 +123,13 @@ def check_case(ctx, e, rng, mech_mod, mst, ada, mwem, aim):
             coef = 1.0 if mono else 0.5
             qq = lattice(k, eps, sens, coef) + (shift if abs(shift) < 1e4 else 0.0)
             rec("mst.exponential_mechanism(monotonic=%s)" % mono, lambda cap, qq=qq, mono=mono: mst.exponential_mechanism(qq.copy(), eps, sens, prng=cap, monotonic=mono))
+            # the caller's quality vector is reused for a second selection (as MST's select does across rounds)
+            def twice(cap, qq=qq, mono=mono, mod=mst):
+                arr = qq.copy()
+                mod.exponential_mechanism(arr, 0.1 * eps, sens, prng=Capture(), monotonic=mono)
+                return mod.exponential_mechanism(arr, eps, sens, prng=cap, monotonic=mono)
+            rec("mst.exponential_mechanism(monotonic=%s), same array as an earlier call" % mono, twice)
+            rec("adaptive_grid.exponential_mechanism(monotonic=%s), same array as an earlier call" % mono, lambda cap, t=twice: t(cap, mod=ada))
             qq2 = lattice(k, eps, sens, coef) + shift
             rec("adaptive_grid.exponential_mechanism(monotonic=%s)" % mono, lambda cap, qq2=qq2, mono=mono: ada.exponential_mechanism(qq2.copy(), eps, sens, prng=cap, monotonic=mono))
         # mwem+pgm.worst_approximated: scores |x - xest|_1 - bias on the lattice
